@@ -141,3 +141,7 @@ def shard(mon, tier, rng, shard_no, nshards):
     mon.notes[f"variants_shard{shard_no}"] = sorted(seen)
     if shard_no == 0:
         mon.counters["variants_run"] = len(seen)
+
+
+def replay(mon, rec):
+    runs.replay_runs(mon, rec, lambda mon, tr: runchecks.check_accounting(mon, tr))
